@@ -135,3 +135,105 @@ func vC20Repeats() int {
 	}
 	return 200
 }
+
+// vC20SymbolOrder renders everything a script can learn about the numbering
+// of the symbols in names: the outcome of (< 'a 'b) for every adjacent pair.
+func vC20SymbolOrder(env *Zlisp, names []string) string {
+	out := make([]byte, 0, len(names))
+	q := func(n string) Sexp { return vL(vS(env, "quote"), vS(env, n)) }
+	for i := 0; i+1 < len(names); i++ {
+		r, err, p := vEval(env, vL(vS(env, "<"), q(names[i]), q(names[i+1])))
+		switch {
+		case p:
+			out = append(out, 'P')
+		case err != nil:
+			out = append(out, 'E')
+		default:
+			if b, isB := r.(*SexpBool); isB && b.Val {
+				out = append(out, 't')
+			} else {
+				out = append(out, 'f')
+			}
+		}
+	}
+	return string(out)
+}
+
+// vh_C20_setup: the standard setup of a sandbox (type names imported from the
+// process-global registry, builders, macros) interns symbols; which symbol
+// sorts before which must not depend on the order in which Go walks the
+// registry maps.  Large maps are walked forwards and backwards (case split).
+func vh_C20_setup() {
+	vMapOrder(false, 0)
+	names := []string{"int", "rune", "error", "symbol", "string", "int64", "float64", "bool", "byte", "comment",
+		"packageScope", "packageScopeStack", "hashSelector", "arraySelector", "uint64", "int8", "complex128", "time.Time", "[]",
+		"def", "range", "req", "struct", "field", "func", "method", "interface", "var", "package", "hash", "car", "zzz"}
+	mk := func() *Zlisp {
+		e := NewZlispSandbox()
+		e.StandardSetup()
+		return e
+	}
+	a := vC20SymbolOrder(mk(), names)
+	same := true
+	for i, n := 0, vC20Repeats(); i < n && same; i++ {
+		vMapOrder(true, 3)
+		e := mk()
+		vMapOrder(false, 0)
+		same = a == vC20SymbolOrder(e, names)
+	}
+	vAssert(same, "setup-symbol-order-independent-of-map-order")
+	vReach("setup")
+}
+
+// vh_C20_fresh: the same program run in two fresh interpreters of one
+// process, one after the other, gives the same value and the same error text
+// (what the first left in process-global tables must not matter).
+var vC20FreshPrograms = []string{
+	`(struct Dog [(field Name: string e:0) (field Number: int64 e:1)]) (def d (Dog Name: "rover" Number: 9001)) (str d)`,
+	`(def h (hash a: 9001 b: 2)) (str h)`,
+	`(struct Kart [(field Id: int64 e:0)]) (method [(p *Kart)] Drive [][s:string] (return "road")) (str (Kart Id: 9001))`,
+	`(var a int64) (a = 9001) (str a)`,
+	`(func f [a:int64] [n:int64] (return (+ a 1))) (str (f a:9001))`,
+	`(interface Driveable [(func driveIt [a:int64] [n:int64])])`,
+	`(def p (package "pk" (def Open 9001))) (+ 0 p.Open)`,
+	`(defmac inc2 [x] ^(+ ~x 2)) (inc2 9001)`,
+	`(def g (gensym)) (str g)`,
+	`(str (list (quote a) 9001 "s" 'c' 2.5 [1 2] (hash k: 1)))`,
+	`(+ 1 undefinedName)`,
+	`(Dog Name: 9001)`,
+	`(str (type? (hash a: 1))) `,
+	`(str (raw "abc"))`,
+	`(def arr [1 2 9001]) { arr[0:2] }`,
+	`(msgmap k: 9001)`,
+}
+
+func vC20RunFresh(k int, hole Sexp) string {
+	env := NewZlispSandbox()
+	env.StandardSetup()
+	out := ""
+	for _, f := range vT(env, vC20FreshPrograms[k], hole) {
+		r, err, p := vEval(env, f)
+		switch {
+		case p:
+			return out + "|panic"
+		case err != nil:
+			return out + "|err:" + err.Error()
+		default:
+			out = r.SexpString(nil)
+		}
+	}
+	return out
+}
+
+func vh_C20_fresh() {
+	vFormatOpaque(true)
+	vMapOrder(false, 0)
+	k := vChoice("program", len(vC20FreshPrograms))
+	hole := vI(7)
+	a := vC20RunFresh(k, hole)
+	b := vC20RunFresh(k, hole)
+	c := vC20RunFresh(k, hole)
+	vAssert(a == b && b == c, "same-program-same-result-in-a-later-fresh-interpreter")
+	vReach("fresh")
+	vReachIdx("fresh", k, len(vC20FreshPrograms))
+}
